@@ -43,8 +43,16 @@ type Rec struct {
 
 const SeqCodes = "=ACMGRSVTWYHKDBN"
 
-func le16(b *bytes.Buffer, v uint16) { var t [2]byte; binary.LittleEndian.PutUint16(t[:], v); b.Write(t[:]) }
-func le32(b *bytes.Buffer, v uint32) { var t [4]byte; binary.LittleEndian.PutUint32(t[:], v); b.Write(t[:]) }
+func le16(b *bytes.Buffer, v uint16) {
+	var t [2]byte
+	binary.LittleEndian.PutUint16(t[:], v)
+	b.Write(t[:])
+}
+func le32(b *bytes.Buffer, v uint32) {
+	var t [4]byte
+	binary.LittleEndian.PutUint32(t[:], v)
+	b.Write(t[:])
+}
 
 // EncodeAux encodes one optional field. hexText selects the specification's
 // encoding of H (hexadecimal digits) or, when false, the raw bytes.
